@@ -16,7 +16,22 @@ import traceback
 
 HERE = os.path.dirname(os.path.dirname(os.path.abspath(__file__)))
 REPO = os.environ.get('JEDI_REPO', '/repo')
-EVIDENCE_DIR = os.environ.get('VERIF_EVIDENCE_DIR', os.path.join(HERE, 'evidence'))
+# /verif/evidence describes /repo and nothing else: a run on another tree (JEDI_REPO=<scratch copy with a deliberately
+# broken body>) writes its evidence next to that tree unless told otherwise, so it can never replace the committed
+# record of the unchanged tree (this happened once: DESIGN.md A.10)
+EVIDENCE_DIR = os.environ.get('VERIF_EVIDENCE_DIR') or (
+    os.path.join(HERE, 'evidence') if os.path.realpath(REPO) == '/repo' else os.path.join(REPO, '_evidence'))
+
+
+def tree_identity():
+    """which source tree the obligations of this run were generated from (path, commit, uncommitted changes)"""
+    def git(*a):
+        try:
+            return subprocess.run(('git', '-C', REPO) + a, capture_output=True, text=True, timeout=30).stdout.strip()
+        except Exception:
+            return ''
+    return {'path': os.path.realpath(REPO), 'head': git('rev-parse', '--short', 'HEAD'),
+            'modified_files': [l[3:] for l in git('status', '--porcelain', '--', 'jedi').splitlines()][:20]}
 
 
 def load_property(prop):
@@ -459,6 +474,7 @@ def run_check(prop, tier, seed):
             'obligations': n_obl,
             'discharged': n_dis,
             'checker_cmd': './check %s --tier %s' % (prop, tier),
+            'tree': tree_identity(),
             'trusted_base': trusted,
             'samples': samples,
             'functions': functions,
